@@ -32,6 +32,11 @@ ASSUMPTIONS = [
     "histogram2d coordinates chunked identically, searchsorted haystack is sorted, assume_unique only with unique inputs",
     "weights are integer-valued or multiples of 0.25 so that per-block partial sums are exact",
     "coarsen has no NumPy counterpart: the reference is reshape-and-reduce of the (trimmed) array, as its docstring describes",
+    "NOT explored (pathological strata whose failures lie in shared machinery owned by other properties, see tame()): explicit "
+    "zero-size chunks on axes of length <= 1 (elementwise broadcasting defect, C19 finding zero-chunk-on-len1-axis); n-d inputs with "
+    "explicit zero-size chunks or zero-length axes for the routines that flatten their input (unique, nonzero/argwhere/flatnonzero, "
+    "compress(axis=None)) and n-d searchsorted needles with zero-size chunks (da.ravel/reshape and reductions over zero-size chunks "
+    "raise there: C24/C22). 1-d inputs keep the zero-size-chunk and zero-length strata for every routine",
 ]
 TECHNIQUE = "differential testing against NumPy; exhaustive chunkings of small shapes x fixed routine list plus Hypothesis-generated routines/arguments/chunkings"
 
@@ -203,6 +208,11 @@ def check(case):
                 nanpos = np.isnan(nps[0]) if kind == "inverse" else np.isnan(np.asarray(wparts[0]))
                 confined = g.shape == w.shape == nanpos.shape and np.array_equal(g[~nanpos], w[~nanpos])
                 raise Violation(v.message, "value-mismatch", **dict(psig, part_kind=kind, only_nan_entry=bool(confined))) from None
+        elif op == "bincount" and a.get("weights") is not None and nps[0].size == 0:
+            # NumPy quirk: for an EMPTY input np.bincount ignores the weights and returns intp zeros, while for any non-empty input the
+            # result has the weights' (float) type.  dask returns the weighted dtype in both cases, which is the consistent reading;
+            # the dtype of this one corner is not demanded (shape and values still are).
+            A.same_array(g, w, what=f"{what} [result {j}]", sig=psig, check_dtype=False)
         else:
             A.same_array(g, w, what=f"{what} [result {j}]", sig=psig)
         if isinstance(p, da.Array):
